@@ -365,7 +365,7 @@ ScopeInputs ==
 
 \* -- dup (C14): repeated outputs within one statement and across statements, any spelling
 DupNames == {"d", "e"}
-OutSpell == {Path(pre, P(nm)) : pre \in (IF Quick THEN {"", "zz/../", ".\\"} ELSE Prefixes), nm \in DupNames}
+OutSpell == {Path(pre, P(nm)) : pre \in (IF Quick THEN {"", "zz/../", "zz\\..\\"} ELSE Prefixes), nm \in DupNames}
 OutLists == UNION {[1..n -> OutSpell] : n \in 1..(IF Quick THEN 3 ELSE 4)}
 
 DupOne(outs, k) ==      \* one statement, the first k outputs explicit, the rest implicit
